@@ -24,6 +24,8 @@ PROGS = {
     "P4": [LAU, LAU, LAU, LAU],
     "P4t": [LAU, LAU, LAU, TAU],
     "P3c": [LAU + LAU, LAU + TAU, TAU + LAU],
+    "P2d": [["D"] + TAU + ["D"], LAU + ["D"] + TAU],
+    "P3d": [["D"] + LAU, LAU, TAU + ["D"]],
     "P4b": [LAU + LAU, LAU, TAU + LAU, LAU],
 }
 DEFAULT_ORD = {
@@ -56,6 +58,12 @@ class MutexBinding(S.Binding):
         f = g.state(src)["futex"]
         if name in ("LockFastCas", "TryLockCas", "ContendedCas01"):
             return {"ev": "cas", "t": t, "exp": 0, "new": 1, "old": f, "ok": f == 0, "_site": name}
+        if name == "DbgTryCas":
+            return {"ev": "cas", "t": t, "exp": 0, "new": 1, "old": f, "ok": f == 0, "_site": "TryLockCas"}
+        if name == "DbgRead":
+            return {"ev": "data", "t": t, "kind": "read", "guard": "debug"}
+        if name == "DbgUnlockSwap0":
+            return {"ev": "swap", "t": t, "new": 0, "old": f, "_site": "UnlockSwap0"}
         if name in ("SpinLoad1", "SpinLoad2"):
             return {"ev": "load", "t": t, "val": f, "_site": "SpinLoad"}
         if name == "WaitFastLoad":
@@ -102,33 +110,38 @@ LC = S.LockCheck(
     assumptions=S.COMMON_ASSUMPTIONS + [
         "bounded: 2-4 threads, programs of 1-2 sections per thread, <=1 spurious wake and <=1 EINTR per thread, DFS preemption bounds as listed under coverage.exploration"],
     all_actions=["LockFastCas", "TryLockCas", "SpinLoad1", "SpinLoad2", "ContendedCas01", "ContendedSwap2", "WaitFastLoad", "FutexWait",
-                 "UnlockSwap0", "WakeOne", "WakeNone", "Access", "SpuriousWake", "Eintr"])
+                 "UnlockSwap0", "WakeOne", "WakeNone", "Access", "SpuriousWake", "Eintr",
+                 "DbgTryCas", "DbgRead", "DbgUnlockSwap0"])
 
 
 def run(tier):
     if tier == "quick":
-        tours = [("2", 2, "P2", (1, 1)), ("3t", 3, "P3t", (1, 0))]
+        tours = [("2", 2, "P2", (1, 1)), ("2d", 2, "P2d", (1, 1)), ("3t", 3, "P3t", (1, 0))]
         configs = [("3", 3, "P3", (1, 1))]
         configs_if_differs = [("2", 2, "P2", (1, 1))]
         specs = [
             ("dfs2", {"progs": PROGS["P2"], "preempt": 2, "max_runs": 3000, "spur": 1, "eintr": 1, "graph": "2"}),
             ("dfs2t", {"progs": [TAU + LAU, LAU], "preempt": 3, "max_runs": 3000, "spur": 1, "eintr": 0}),
+            ("dfs2d", {"progs": PROGS["P2d"], "preempt": 2, "max_runs": 3000, "spur": 1, "eintr": 0, "graph": "2d"}),
             ("dfs3", {"progs": PROGS["P3"], "preempt": 2, "max_runs": 1500, "spur": 0, "eintr": 0}),
-            ("cov4", {"mode": "cover", "progs": [LAU + LAU, LAU + TAU, TAU + LAU, LAU], "runs": 300, "spur": 1, "eintr": 1}),
+            ("cov4", {"mode": "cover", "progs": [LAU + ["D"] + LAU, LAU + TAU, TAU + LAU + ["D"], ["D"] + LAU], "runs": 300, "spur": 1, "eintr": 1}),
             ("rnd4", {"progs": [LAU + LAU, LAU + TAU, TAU + LAU, LAU], "runs": 150, "spur": 1, "eintr": 1}),
         ]
     else:
-        tours = [("2", 2, "P2", (1, 1)), ("2t", 2, "P2t", (1, 1)), ("3t", 3, "P3t", (1, 1)), ("3", 3, "P3", (1, 1))]
+        tours = [("2", 2, "P2", (1, 1)), ("2t", 2, "P2t", (1, 1)), ("2d", 2, "P2d", (1, 1)), ("3d", 3, "P3d", (1, 0)),
+                 ("3t", 3, "P3t", (1, 1)), ("3", 3, "P3", (1, 1))]
         configs = [("3b", 3, "P3b", (1, 0)), ("4", 4, "P4", (1, 0)), ("4t", 4, "P4t", (1, 0)),
                    ("3c", 3, "P3c", (1, 1), 100), ("4b", 4, "P4b", (1, 0), 100)]
         configs_if_differs = [("2", 2, "P2", (1, 1)), ("3", 3, "P3", (1, 1))]
         specs = [
             ("dfs2", {"progs": PROGS["P2"], "preempt": 4, "max_runs": 6000, "spur": 1, "eintr": 1, "graph": "2"}),
             ("dfs2t", {"progs": PROGS["P2t"], "preempt": 4, "max_runs": 5000, "spur": 1, "eintr": 1, "graph": "2t"}),
+            ("dfs2d", {"progs": PROGS["P2d"], "preempt": 4, "max_runs": 5000, "spur": 1, "eintr": 1, "graph": "2d"}),
+            ("dfs3d", {"progs": PROGS["P3d"], "preempt": 2, "max_runs": 5000, "spur": 1, "eintr": 0, "graph": "3d"}),
             ("dfs3", {"progs": PROGS["P3"], "preempt": 3, "max_runs": 5000, "spur": 1, "eintr": 1, "graph": "3"}),
             ("dfs3b", {"progs": PROGS["P3b"], "preempt": 2, "max_runs": 5000, "spur": 0, "eintr": 0}),
             ("dfs4", {"progs": PROGS["P4t"], "preempt": 2, "max_runs": 5000, "spur": 0, "eintr": 0}),
-            ("cov4", {"mode": "cover", "progs": [LAU + LAU, LAU + TAU, TAU + LAU, LAU + LAU], "runs": 3000, "spur": 1, "eintr": 1}),
+            ("cov4", {"mode": "cover", "progs": [LAU + ["D"] + LAU, LAU + TAU, TAU + LAU + ["D"], ["D"] + LAU + LAU], "runs": 3000, "spur": 1, "eintr": 1}),
             ("rnd4", {"progs": [LAU + LAU, LAU + TAU, TAU + LAU, LAU + LAU], "runs": 3000, "spur": 1, "eintr": 1}),
         ]
     stress = {"threads": 4, "sections": 1500} if tier == "quick" else {"threads": 8, "sections": 10000}
